@@ -232,6 +232,17 @@ SIM_SCENARIO(scen_c15, "c15", "C15", 6000000, 30000) {
             make_edge(o, s2); g.wait_for_all();
             SIM_CHECK(late.size() == 1 && late[0] == n - 1, "oracle:overwrite", "a successor added later received %zu values (first %d), expected the latest value %d", late.size(), late.empty() ? -1 : late[0], n - 1);
             SIM_CHECK((int)rec.order.size() == n, "oracle:message-lost", "present successor received %zu of %d values", rec.order.size(), n);
+            // a successor attached WHILE values arrive: it must end up with the latest value, and see values in the order written
+            std::vector<int> live; function_node<int, continue_msg, queueing> s3(g, serial, [&](int m) -> continue_msg { live.push_back(m); return continue_msg(); });
+            int gap = (int)sim::draw(30, "attach_gap"), more = (int)sim::draw_range(1, 6, "more_values");
+            std::vector<std::function<void()>> fns;
+            fns.push_back([&] { for (int i = 0; i < more; ++i) { sim::upoint(); o.try_put(n + i); } });
+            fns.push_back([&] { for (int i = 0; i < gap; ++i) sim::upoint(); make_edge(o, s3); });
+            hx::run_fibers(fns); g.wait_for_all();
+            int last = n + more - 1;
+            SIM_CHECK(o.try_get(v) && v == last, "oracle:overwrite", "overwrite_node holds %d, last written %d", v, last);
+            SIM_CHECK(!live.empty() && live.back() == last, "oracle:overwrite", "a successor attached while values arrived ended up with %d, the node holds the latest value %d", live.empty() ? -1 : live.back(), last);
+            for (size_t i = 1; i < live.size(); ++i) SIM_CHECK(live[i - 1] < live[i], "oracle:overwrite", "a successor attached while values arrived received %d after %d", live[i], live[i - 1]);
         } else {
             write_once_node<int> o(g); make_edge(o, sink);
             auto msgs = split_msgs(n, threads, false);
